@@ -50,9 +50,9 @@ def translation_for(text, p, s, tclass):
         c = tclass[ax]
         v = {"zero": 0, "unit": 1, "halfcell": 1255, "cell": -2510}.get(c)
         if c == "high":
-            v = 9999000 - hi - 1234
+            v = 9999999 - hi - 99          # the largest coordinate becomes 9999.900: still inside the Real(8.3) field
         elif c == "low":
-            v = -999000 - lo + 4321
+            v = -999999 - lo + 99          # the smallest coordinate becomes -999.900
         # stay inside the field
         if hi + v > 9999999 or lo + v < -999999:
             v = 0
